@@ -94,6 +94,7 @@ def getFluxesTC (c : Content) (rows : List (Rat × List (Name × Rat))) :
 def getRhsTC (c : Content) (argRows : List (Rat × List (Name × Rat))) :
     Except Err (List (List (Name × Rat))) := do
   let cache ← createCache c
-  argRows.mapM fun (t, row) => rhsFromArgs cache (omKeys c.vars) (row ++ [("time", t)])
+  -- computed coefficients also see the data sets (`self._data | args`, after the repair of F-C01-2)
+  argRows.mapM fun (t, row) => rhsFromArgs cache (omKeys c.vars) (row ++ [("time", t)] ++ c.data)
 
 end Mxl
